@@ -60,12 +60,12 @@ Print Assumptions C16_table_merge_sorted_unique.
    and leaves every other key's table alone; a get returns the stored table or :undefined *)
 Theorem C16_table_store_set :
   forall (flen fmem : frame -> Z) (dirsize : Z), (forall f, 0 <= fmem f <= flen f) ->
-  forall K, prefix_free K -> forall (s : cache frame) n new t1 t2,
+  forall K, prefix_free K -> forall (s : cache frame) n new t1 t2 ch1 ch2,
   Inv frame fmem K s -> In n K ->
   let old := match stored s n with Some f => f | None => [] end in
   (match stored s n with Some f => flen f <= c_max frame s | None => True end) ->
   flen (merge_frames old new) <= c_max frame s ->
-  exists s', tbl_set flen fmem dirsize s n new t1 t2 = (s', TSet) /\
+  exists s', tbl_set flen fmem dirsize s n new t1 t2 ch1 ch2 = (s', TSet) /\
              Inv frame fmem K s' /\ c_max frame s' = c_max frame s /\
              stored s' n = Some (merge_frames old new) /\
              forall k, In k K -> k <> n -> stored s' k = stored s k.
@@ -74,10 +74,10 @@ Print Assumptions C16_table_store_set.
 
 Theorem C16_table_store_get :
   forall (flen fmem : frame -> Z) (dirsize : Z), (forall f, 0 <= fmem f <= flen f) ->
-  forall K, forall (s : cache frame) n t,
+  forall K, forall (s : cache frame) n t ch,
   Inv frame fmem K s -> In n K ->
   (match stored s n with Some f => flen f <= c_max frame s | None => True end) ->
-  exists s', tbl_get flen fmem dirsize s n t = (s', match stored s n with Some f => TVal f | None => TUndef end) /\
+  exists s', tbl_get flen fmem dirsize s n t ch = (s', match stored s n with Some f => TVal f | None => TUndef end) /\
              Inv frame fmem K s' /\ c_max frame s' = c_max frame s /\ forall k, stored s' k = stored s k.
 Proof. exact tbl_get_spec. Qed.
 Print Assumptions C16_table_store_get.
@@ -91,7 +91,7 @@ Definition C16_full_statement : Prop :=
 
 (* K1 (known finding C16-prefix-keys): keys "a/x" and "a".  After set a/x, the never-set key a raises
    IsADirectoryError instead of :undefined, a set of a fails, and current_memory_usage is negative. *)
-Definition prefix_witness : list (op Z) := [OSet [1; 2] 5 1; OGet [1] 2; OSet [1] 5 3].
+Definition prefix_witness : list (op Z) := [OSet [1; 2] 5 1 []; OGet [1] 2 []; OSet [1] 5 3 []].
 Theorem C16_prefix_refuted :
   snd (kvs_run Z zid zid 4096 true (open_cache Z [] 0) prefix_witness) = [RSet; RErr IsADirectory; RErr IsADirectory] /\
   snd (spec_run Z zid (mkS Z [] (norm_max 0)) prefix_witness) = [RSet; RUndef; RSet] /\
@@ -105,15 +105,15 @@ Qed.
 
 (* K2 (fixed by f420351): without the FileNotFoundError handler a never-set key raises *)
 Theorem C16_missing_refuted_without_handler :
-  snd (kvs_run Z zid zid 4096 false (open_cache Z [] 0) [OGet [1] 1]) = [RErr FileNotFound] /\
-  snd (spec_run Z zid (mkS Z [] (norm_max 0)) [OGet [1] 1]) = [RUndef].
+  snd (kvs_run Z zid zid 4096 false (open_cache Z [] 0) [OGet [1] 1 []]) = [RErr FileNotFound] /\
+  snd (spec_run Z zid (mkS Z [] (norm_max 0)) [OGet [1] 1 []]) = [RUndef].
 Proof. vm_compute. split; reflexivity. Qed.
 
 (* K3 (known finding C16-table-mem-over-limit): contents whose in-memory size exceeds the limit while the
    serialised length fits (possible for DataFrames, not for the byte cache): the worker's assertion fails
    after the file was written, the entry stays `writing` for ever and every later get/set of the key fails. *)
 Definition lenmem := (Z * Z)%type.
-Definition mem_witness : list (op lenmem) := [OSet [1] (10, 50) 1; OGet [1] 2; OSet [1] (10, 5) 3].
+Definition mem_witness : list (op lenmem) := [OSet [1] (10, 50) 1 []; OGet [1] 2 []; OSet [1] (10, 5) 3 []].
 Theorem C16_mem_over_limit_refuted :
   snd (kvs_run lenmem fst snd 4096 true (open_cache lenmem [] 20) mem_witness)
     = [RErr AssertionErr; RErr AssertionErr; RErr AssertionErr] /\
@@ -123,8 +123,8 @@ Proof. vm_compute. split; reflexivity. Qed.
 (* ---- non-vacuity: a concrete history with nested keys, evictions, unload, reopen, an oversized value ---- *)
 Definition ex_K : list name := [[1]; [2; 3]; [2; 4]; [9]].
 Definition ex_ops : list (op Z) :=
-  [OSet [1] 6 1; OSet [2; 3] 5 2; OGet [1] 3; OSet [2; 4] 7 3; OGet [9] 4; OSet [1] 30 5; OUnload [2; 4];
-   OReopen 7; OGet [2; 3] 6; OGet [2; 4] 7; OGet [1] 8].
+  [OSet [1] 6 1 []; OSet [2; 3] 5 2 []; OGet [1] 3 []; OSet [2; 4] 7 3 [[2; 3]; [1]]; OGet [9] 4 []; OSet [1] 30 5 [];
+   OUnload [2; 4]; OReopen 7; OGet [2; 3] 6 []; OGet [2; 4] 7 []; OGet [1] 8 []].
 Example C16_example_hypotheses : prefix_free ex_K /\ Forall (op_ok Z ex_K) ex_ops.
 Proof. split; [apply prefix_freeb_ok | apply op_okb_ok]; vm_compute; reflexivity. Qed.
 Example C16_example_run :
